@@ -20,7 +20,13 @@ def negate(pat):
 
 
 class PathStates:
-    def __init__(self, fn, facts, tracked, cap=256, env=None):
+    def __init__(self, fn, facts, tracked, cap=256, env=None, correlate=False, start=0, within=None):
+        """correlate: additionally carry the constant currently held by every flag phi (a phi whose incoming values are constants or
+        other flag phis) and drop a state at an edge whose branch facts contradict it - so `found = 0; break; ... if (found)` is followed
+        only along feasible combinations.  The carried constants are labels ("$<phi id>", True, value)."""
+        self.correlate = correlate
+        self.start = start              # region analysis: begin at this block with the empty state ...
+        self.within = within            # ... and stay inside this set of blocks (None: whole function)
         self.fn = fn
         self.F = facts
         self.tracked = tracked
@@ -41,7 +47,60 @@ class PathStates:
                         if m.match_fact(negate(pat), f, dict(env or {})) is not None:
                             labs.add((name, False, iid))
                 self.edge_labels[(b.id, s)] = frozenset(labs)
+        self.flag_phis = {}
+        if correlate:
+            from .facts import is_const, const_val
+            cand = {i.id: i for b in fn.blocks for i in b.insts if i.op == "phi"}
+            changed = True
+            while changed:
+                changed = False
+                for pid, ph in list(cand.items()):
+                    for v, _ in ph.incoming:
+                        if is_const(v) and const_val(v) is not None:
+                            continue
+                        sv = m.strip(v)
+                        if sv[0] == "v" and sv[1] in cand:
+                            continue
+                        del cand[pid]
+                        changed = True
+                        break
+            self.flag_phis = cand
+            self._m = m
         self._run()
+
+    def _flag_step(self, st, b, s):
+        """state after crossing b->s under the flag-phi assignment, or None if the edge contradicts it"""
+        from .facts import is_const, const_val
+        m = self._m
+        env = {int(n[1:]): v for n, pol, v in st if n.startswith("$")}
+        for f in self.F.edge_facts(b, s):
+            a = m.strip(f[1])
+            if a[0] == "v" and a[1] in env and is_const(f[2]) and const_val(f[2]) is not None:
+                x, c = env[a[1]], const_val(f[2])
+                ok = {"eq": x == c, "ne": x != c, "ugt": x > c, "uge": x >= c, "ult": x < c, "ule": x <= c,
+                      "sgt": x > c, "sge": x >= c, "slt": x < c, "sle": x <= c}.get(f[0], True)
+                if not ok:
+                    return None
+        new = {}
+        for i in self.fn.blocks[s].insts:
+            if i.op != "phi":
+                break
+            if i.id not in self.flag_phis:
+                continue
+            for v, pb in i.incoming:
+                if pb == b:
+                    if is_const(v) and const_val(v) is not None:
+                        new[i.id] = const_val(v)
+                    else:
+                        sv = m.strip(v)
+                        new[i.id] = env.get(sv[1]) if sv[0] == "v" else None
+        if not new:
+            return st
+        keep = {x for x in st if not (x[0].startswith("$") and int(x[0][1:]) in new)}
+        for pid, val in new.items():
+            if val is not None:
+                keep.add(("$%d" % pid, True, val))
+        return frozenset(keep)
 
     def _run(self):
         fn = self.fn
@@ -49,14 +108,20 @@ class PathStates:
         if not fn.blocks:
             self.states = states
             return
-        states[0].add(frozenset())
-        work = [0]
+        states[self.start].add(frozenset())
+        work = [self.start]
         while work:
             b = work.pop()
             for s in fn.blocks[b].succs:
+                if self.within is not None and s not in self.within:
+                    continue
                 lab = self.edge_labels[(b, s)]
                 new = False
                 for st in list(states[b]):
+                    if self.correlate:
+                        st = self._flag_step(st, b, s)
+                        if st is None:
+                            continue
                     st2 = st | lab
                     if st2 not in states[s]:
                         if len(states[s]) >= self.cap:
@@ -75,6 +140,10 @@ class PathStates:
         lab = self.edge_labels[(b, s)]
         out = set()
         for st in self.states[b]:
+            if self.correlate:
+                st = self._flag_step(st, b, s)
+                if st is None:
+                    continue
             out.add(st | lab)
         return out
 
@@ -92,4 +161,4 @@ def refuted(state, name):
 
 
 def show(states):
-    return sorted(sorted(("%s%s#%d" % ("" if pol else "!", n, i)) for n, pol, i in s) for s in states)
+    return sorted(sorted(("%s%s#%d" % ("" if pol else "!", n, i)) for n, pol, i in s if not n.startswith("$")) for s in states)
